@@ -14,9 +14,9 @@ PLAN = dict(
                            "behaviour of Read after it has returned an error is not examined (the property speaks about output before the error)",
                            "a Read may return (0, nil) for a non-empty buffer at most 4 times in a row; more is reported as no-progress"],
     runs=[
-        dict(name="exh", run="^(TestExhaustiveMutations|TestCorpus)$", shards=(1, 8), timeout=(300, 3000)),
-        dict(name="rapid", run="^TestPropMutation$", checks=(15000, 100000), shards=(2, 8), timeout=(300, 3000)),
-        dict(name="arb", run="^TestPropArbitrary$", checks=(20000, 100000), shards=(1, 4), timeout=(300, 3000)),
+        dict(name="exh", run="^(TestExhaustiveMutations|TestCorpus)$", shards=(1, 16), timeout=(300, 3600)),
+        dict(name="rapid", run="^TestPropMutation$", checks=(15000, 500000), shards=(2, 16), timeout=(300, 3600)),
+        dict(name="arb", run="^TestPropArbitrary$", checks=(20000, 500000), shards=(1, 4), timeout=(300, 3600)),
     ],
     technique="exhaustive single-mutation enumeration (every bit flip, every truncation length, structural edits) over small honest streams + rapid-generated mutations of larger streams + arbitrary streams against honest and arbitrary digests; prefix/complete-EOF oracle with a counting source reader",
     level_text=("Every single-bit flip and every truncation length of every honest stream in a lattice of small (draft, record size, payload length) "
